@@ -330,27 +330,58 @@ def same_type(repo: Repo, rep):
         "old class name for an instance of a subclass, so the repaired snapshot still fails",
     )
     f = repo.func("_adapter/adapter.py::Adapter.get_adapter")
-    cfg = cfg_of(f)
-    a, b = f.params[1], f.params[2]
-    exact = []
-    for c in cfg.conds():
-        e = c.ast
-        if isinstance(e, ast.Compare) and len(e.ops) == 1 and isinstance(e.ops[0], (ast.Is, ast.IsNot, ast.Eq, ast.NotEq)):
-            sides = {norm(e.left), norm(e.comparators[0])}
-            if sides == {f"type({a})", f"type({b})"}:
-                same = "T" if isinstance(e.ops[0], (ast.Is, ast.Eq)) else "F"
-                exact.append((c, same))
-    rets = [r for r in cfg.stmts(ast.Return) if r.ast.value is not None and "ValueAdapter" not in norm(r.ast.value)]
-    if not rets:
-        rep.undecided("R-SAME-TYPE", "no structural-adapter return found in get_adapter")
-        return
+    from ..callgraph import callgraph
     from ..cfg import edges_dominate
 
-    for r in rets:
-        if exact and edges_dominate(cfg, exact, r):
-            rep.ok("R-SAME-TYPE", f, r.ast, "structural adapter only for identical types")
+    cg = callgraph(repo)
+
+    def decide(f, a, b, depth=0):
+        cfg = cfg_of(f)
+        exact = []
+        for c in cfg.conds():
+            e = c.ast
+            if isinstance(e, ast.Compare) and len(e.ops) == 1 and isinstance(e.ops[0], (ast.Is, ast.IsNot, ast.Eq, ast.NotEq)):
+                sides = {norm(e.left), norm(e.comparators[0])}
+                if sides == {f"type({a})", f"type({b})"}:
+                    same = "T" if isinstance(e.ops[0], (ast.Is, ast.Eq)) else "F"
+                    exact.append((c, same))
+        # the choice handed to a helper that gets both values: `adapter_type = self._adapter_type_for(old, new)`
+        chosen_by = {}
+        if depth == 0:
+            for n in cfg.live:
+                for c in node_calls(n):
+                    if [norm(x) for x in c.args] == [a, b] and not c.keywords:
+                        tg, _ = cg.call_targets(f, c)
+                        for h in tg:
+                            hp = [p for p in h.params if p != "self"]
+                            if h is not f and h.module.rel.startswith("_adapter/") and len(hp) == 2 and isinstance(n.ast, ast.Assign) and len(n.ast.targets) == 1 and isinstance(n.ast.targets[0], ast.Name):
+                                chosen_by[n.ast.targets[0].id] = (h, hp)
+        rets = [r for r in cfg.stmts(ast.Return) if r.ast.value is not None and "ValueAdapter" not in norm(r.ast.value)]
+        out = []
+        for r in rets:
+            if exact and edges_dominate(cfg, exact, r):
+                out.append((f, r, True))
+                continue
+            v = r.ast.value
+            head = v.func if isinstance(v, ast.Call) else v
+            if isinstance(head, ast.Name) and head.id in chosen_by and len(defs_of(cfg, head.id)) == 1:
+                h, hp = chosen_by[head.id]
+                sub = decide(h, hp[0], hp[1], depth + 1)
+                if sub:
+                    out.extend(sub)
+                    continue
+            out.append((f, r, False))
+        return out
+
+    res = decide(f, f.params[1], f.params[2])
+    if not res:
+        rep.undecided("R-SAME-TYPE", "no structural-adapter return found in get_adapter")
+        return
+    for g, r, ok in res:
+        if ok:
+            rep.ok("R-SAME-TYPE", g, r.ast, "structural adapter only for identical types")
         else:
-            rep.violation("R-SAME-TYPE", f, r.ast, "a structural adapter is chosen although old and new value need not have the same type (no `type(old) is type(new)` test on every path): fix repairs the arguments but keeps the old class name, so the comparison still fails after the fix", construct="get_adapter")
+            rep.violation("R-SAME-TYPE", g, r.ast, "a structural adapter is chosen although old and new value need not have the same type (no `type(old) is type(new)` test on every path): fix repairs the arguments but keeps the old class name, so the comparison still fails after the fix", construct="get_adapter")
 
 
 def frame_locals(repo: Repo, rep):
